@@ -64,4 +64,12 @@ CHECKS = {
   "ref": "DESIGN.md §5 C07",
   "note": "trusted: Lean kernel; Spec/Reply.lean hand-written; floats opaque (repr carried verbatim, round trip is CPython's contract, tested)",
   "technique": "Lean 4 proof (induction, decide +kernel over the base64 alphabet) + pure differential correspondence"},
+ "C15": {
+  "text": "Lean theorems c15_segmentation (every stream of well-formed lines + unterminated remainder, every list of chunks whose "
+          "concatenation is the stream: exactly the lines are dispatched, in order, unmodified, and exactly the remainder is held), c15_hom, "
+          "c15_hold over the model of the reader loop's framing; tied by running the real _RequestManager._do_run on a scripted socket "
+          "over exhaustive <=2/3-cut segmentations, byte-at-a-time and random segmentations, and malformed streams for fidelity.",
+  "ref": "DESIGN.md §5 C15",
+  "note": "trusted: Lean kernel; str.splitlines modelled (compared, not verified); parse_request's terminator stripping is C06",
+  "technique": "Lean 4 proof (induction over chunks with a buffer invariant) + exhaustive-segmentation differential"},
 }
